@@ -311,8 +311,8 @@ def correspondence(ctx, coq_ok):
         meta.append({"rule": code, "policy": pol, "raws": raws, "config": extra, "impl_trace": tr})
     if not coq_ok:
         return
-    # one coqc run for everything (start-up dominates): digests of the exhaustive parts, then the random cases in groups of 400
-    groups = list(coq.chunked(lits, 400))
+    # one coqc run for everything (start-up dominates): digests of the exhaustive parts, then the random cases in groups of 100 (long list literals parse super-linearly)
+    groups = list(coq.chunked(lits, 100))
     got_all = coq.eval_terms(imports, terms + ["map run_trace %s" % coq.clist(g) for g in groups], defs=DEFS)
     got, got_rand = got_all[:len(terms)], [x for part in got_all[len(terms):] for x in part]
     for g, e, (name, items, inputs, outs) in zip(got, expect, locate):
@@ -461,6 +461,8 @@ def monitor_task(task):
     dialect, sql = task["dialect"], task["sql"]
     try:
         base = make_cfg(dialect, {"CP01": "consistent"})
+        if task.get("mutate_seed") is not None:
+            sql = mutate(base, sql, random.Random(task["mutate_seed"]))
         parsed = Linter(config=base).parse_string(sql)
         root = parsed.root_variant()
         if root is None or root.tree is None:
@@ -475,6 +477,7 @@ def monitor_task(task):
         else:
             res["harness"].append(("tree/lexer token alignment failed", task["label"]))
         unparsable = "unparsable" in tree.type_set()
+        confirmed = set()
         for rules_pol, feu, cross in task["combos"]:
             cfg = make_cfg(dialect, rules_pol, feu=feu)
             lin = Linter(config=cfg)
@@ -490,7 +493,10 @@ def monitor_task(task):
             problems, changed, relex = [], [], False
             if out != sql:
                 problems, changed, relex = check_output(in_lex, in_types, cfg, out, policies)
-            if cross or problems:
+            # confirm through the real entry point (fresh parse): a sample of all runs, and every new kind of problem once per file
+            sig = frozenset((key, repr(sorted(attrs.items()))) for key, attrs, _ in problems)
+            if cross or not sig <= confirmed:
+                confirmed |= sig
                 out2 = Linter(config=cfg).lint_string(sql, fix=True).fix_string()[0]
                 if out2 != out:
                     res["harness"].append(("lint_parsed on a shared parse differs from lint_string", task["label"], tag))
@@ -516,6 +522,15 @@ def monitor_task(task):
     except Exception as e:  # a crash of the linter itself is C04's business; report as harness note with the input
         res["harness"].append(("exception in monitor task", task["label"], "".join(traceback.format_exception(type(e), e, e.__traceback__))[-1500:]))
     return res
+
+
+def monitor_batch(tasks):
+    import time
+    t0, c0 = time.time(), time.process_time()
+    out = [monitor_task(t) for t in tasks]
+    if out:
+        out[0]["timing"] = (tasks[0]["dialect"], round(time.time() - t0, 1), round(time.process_time() - c0, 1))
+    return out
 
 
 NONASCII = ["é", "ß", "İ", "ǆ", "Σ", "ﬁ", "ı"]
@@ -608,18 +623,18 @@ def build_tasks(ctx):
         return pols
 
     def combos_full():
-        out = [(dict(rp), feu, rng.random() < 0.06) for rp, feu in single]
+        out = [(dict(rp), feu, rng.random() < 0.04) for rp, feu in single]
         for p in (BASIC if thorough else ["consistent"]):
-            out.append(({r: p for r in NAMES}, False, rng.random() < 0.06))
+            out.append(({r: p for r in NAMES}, False, rng.random() < 0.04))
         out.append((all_mix(False), False, False))
         if thorough:
             out.append((all_mix(True), False, False))
         return out
 
-    def combos_some(k):
-        out = [(dict(rp), rng.random() < 0.5, rng.random() < 0.06) for rp, _ in rng.sample(single, k)]
-        out.append((all_mix(False), rng.random() < 0.5, False))
-        out.append(({r: "consistent" for r in NAMES}, rng.random() < 0.5, False))
+    def combos_some(k, feu_p=0.5):
+        out = [(dict(rp), rng.random() < feu_p, rng.random() < 0.04) for rp, _ in rng.sample(single, k)]
+        out.append((all_mix(False), rng.random() < feu_p, False))
+        out.append(({r: "consistent" for r in NAMES}, rng.random() < feu_p, False))
         return out
 
     tasks = []
@@ -629,30 +644,24 @@ def build_tasks(ctx):
         files = [f for f in files if 40 <= os.path.getsize(f) <= max_size]
         if not files:
             continue
-        cfg = None
         for f in rng.sample(files, min(per_dialect, len(files))):
             try:
                 sql = open(f, encoding="utf-8").read()
             except UnicodeDecodeError:
                 continue
             label = os.path.relpath(f, FIXTURES)
-            tasks.append({"dialect": d, "label": label, "sql": sql, "combos": combos_full()})
-            if cfg is None:
-                cfg = make_cfg(d, {"CP01": "consistent"})
+            # quick: the full rule x policy grid runs on the EXTRA_SQL statements; each fixture gets a random third of it
+            tasks.append({"dialect": d, "label": label, "sql": sql, "combos": combos_full() if thorough else combos_some(12, 0.0)})
             for k in range(n_mut):
                 mseed = rng.randrange(1 << 30)
-                try:
-                    msql = mutate(cfg, sql, random.Random(mseed))
-                except Exception:
-                    continue
-                tasks.append({"dialect": d, "label": "%s#mut%d" % (label, mseed), "sql": msql, "combos": combos_some(mut_combos)})
+                tasks.append({"dialect": d, "label": "%s#mut%d" % (label, mseed), "sql": sql, "mutate_seed": mseed,
+                              "combos": combos_some(mut_combos)})
     for i, (d, sql) in enumerate(EXTRA_SQL):
         tasks.append({"dialect": d, "label": "extra%d" % i, "sql": sql, "combos": combos_full()})
         if thorough:
-            cfg = make_cfg(d, {"CP01": "consistent"})
             for k in range(3):
                 mseed = rng.randrange(1 << 30)
-                tasks.append({"dialect": d, "label": "extra%d#mut%d" % (i, mseed), "sql": mutate(cfg, sql, random.Random(mseed)),
+                tasks.append({"dialect": d, "label": "extra%d#mut%d" % (i, mseed), "sql": sql, "mutate_seed": mseed,
                               "combos": combos_some(mut_combos)})
     return tasks
 
@@ -661,12 +670,17 @@ def monitor(ctx, coq_ok):
     import multiprocessing
     from concurrent.futures import ProcessPoolExecutor
     tasks = build_tasks(ctx)
-    # heavy tasks first so the pool drains evenly
-    order = sorted(range(len(tasks)), key=lambda i: -len(tasks[i]["sql"]) * len(tasks[i]["combos"]))
+    # one batch per dialect (loading a dialect costs about as much as a dozen lints, so each is loaded in one worker only);
+    # heavy batches first so the pool drains evenly
+    by_dialect = {}
+    for i, t in enumerate(tasks):
+        by_dialect.setdefault(t["dialect"], []).append(i)
+    batches = sorted(by_dialect.values(), key=lambda idx: -sum((200 + len(tasks[i]["sql"])) * len(tasks[i]["combos"]) for i in idx))
     results = [None] * len(tasks)
     with ProcessPoolExecutor(max_workers=3, mp_context=multiprocessing.get_context("spawn")) as ex:
-        for i, r in zip(order, ex.map(monitor_task, [tasks[i] for i in order], chunksize=1)):
-            results[i] = r
+        for idx, rs in zip(batches, ex.map(monitor_batch, [[tasks[i] for i in idx] for idx in batches], chunksize=1)):
+            for i, r in zip(idx, rs):
+                results[i] = r
     fixes = {}
     nexc, exc_samples, nonascii = 0, [], []
     sampled = 0
@@ -701,16 +715,17 @@ def monitor(ctx, coq_ok):
             else:
                 ctx.broken_obligation("monitor: " + h[0], {"detail": h[1:]})
     ctx.coverage_extra["monitor_tasks"] = len(tasks)
+    ctx.coverage_extra["monitor_batches(dialect,wall_s,cpu_s)"] = [r["timing"] for r in results if r and "timing" in r]
     ctx.coverage_extra["rule_exceptions_seen(C05)"] = {"count": nexc, "samples": exc_samples[:4]}
     ctx.coverage_extra["nonascii_case_mappings_changing_length"] = sorted(set(nonascii))[:10]
     # translation validation of the real fixes against the model: every changed ASCII token is what the model's transform gives
     if coq_ok and fixes:
         trip = sorted(fixes)
-        limit = 6000 if ctx.tier == "thorough" else 1200
+        limit = 3000 if ctx.tier == "thorough" else 600
         if len(trip) > limit:
             trip = ctx.rng.sample(trip, limit)
         lits = ["(%d%%N, %s, %s)" % (0 if p == "consistent" else PCODE[p], coq.ctext(a), coq.ctext(b)) for (p, a, b) in trip]
-        parts = coq.eval_terms(["Model.Caps"], ["map fix_explained %s" % coq.clist(g) for g in coq.chunked(lits, 400)], defs=DEFS)
+        parts = coq.eval_terms(["Model.Caps"], ["map fix_explained %s" % coq.clist(g) for g in coq.chunked(lits, 100)], defs=DEFS)
         got = [x for part in parts for x in part]
         for (p, a, b), g in zip(trip, got):
             ctx.case(None, bucket="real-fix-vs-model")
